@@ -2,6 +2,7 @@
   C06 — Every invocation terminates with a decision for every wanted step.
 -/
 import N2V.Lemmas.SchedExamples
+import N2V.Lemmas.SchedCycle
 import N2V.Model.Run
 namespace N2V.C06
 open N2V N2V.Sched
@@ -114,5 +115,15 @@ example : DepsOK Ex.g0 ∧ Acyclic Ex.g0 := by
         simp at hp; subst hp
         rename_i hb0 hb; show (0 : Nat) < b; omega
       · cases hf
+
+/-- **A reported dependency cycle is real**: when `Work::want_file` fails, the message is
+    `dependency cycle: f0 -> f1 -> ... -> f0` over files each of which is an explicit, implicit or
+    order-only input of the step producing its predecessor (`Linked`), and the list returns to its
+    first file.  Validation inputs are visited with a fresh stack, so a cycle closed only by a
+    validation edge is never reported (and, by `want_error_runs_nothing`, no step runs after a
+    cycle error). -/
+theorem cycle_diagnostic_sound (g : Graph) (s s' : S) (f : Nat) (m : String) (h : want g s f = .err m s') :
+    ∃ (c : List Nat) (x : Nat), m = cycleMessage g c x ∧ c.head? = some x ∧ Linked g (c ++ [x]) :=
+  want_cycle_sound g s s' f m h
 
 end N2V.C06
